@@ -40,6 +40,12 @@ const preludeBase = `(set-logic ALL)
 (declare-fun pl_mget (Val Val) Val)
 (declare-fun tassignable (Int Int) Bool)
 (declare-fun tnumin (Int) Int)
+(declare-fun tnumout (Int) Int)
+(declare-fun tout (Int Int) Int)
+(declare-fun tmethod (Int Str) Bool)
+(declare-fun tfield (Int Str) Bool)
+(declare-fun texported (Int Str) Bool)
+(declare-fun tnumfield (Int) Int)
 (declare-fun sprint1 (Val) Str)
 (declare-fun sprintf5 (Str Val Val Val Val Val) Str)
 (declare-fun requote (Str) Str)
